@@ -292,7 +292,10 @@ cdef class LinearRegressorCriterion(CommonRegressorCriterion):
         cdef int nrhs = 1
         cdef int lda = row
         cdef int ldb = row
-        cdef float64_t rcond = -1
+        # same cut-off as numpy.linalg.lstsq: with machine precision alone
+        # (rcond=-1), a singular value which should be null but is not because
+        # of rounding errors (duplicated rows) is inverted
+        cdef float64_t rcond = 2.220446049250313e-16 * max(row, col)
         cdef int rank
         cdef int work = <int>self.work
 
